@@ -479,7 +479,7 @@ Qed.
 (* ====================================================================================================== *)
 (* (2) T2JBytes: the Thrift -> JSON byte walk                                                               *)
 (* ====================================================================================================== *)
-From DG Require Import Json Num Base64 T2J T2JBytes.
+From DG Require Import Json Num Base64 T2J T2JUnset T2JBytes.
 
 Lemma rd_int_len n bs z r : rd_int n bs = Some (z, r) -> (length bs = n + length r)%nat.
 Proof.
@@ -532,9 +532,9 @@ Section T2JWalkTotal.
     apply rd_bytes_len in E. assumption.
   Qed.
 
-  Lemma walk_key_shrinks dk bs txt r : walk_key o dk bs = Some (txt, r) -> (length r < length bs)%nat.
+  Lemma walk_key_t_shrinks t bs txt r : walk_key_t o t bs = Some (txt, r) -> (length r < length bs)%nat.
   Proof.
-    unfold walk_key, walk_key_t. generalize (desc_type dk). intros t.
+    unfold walk_key_t.
     destruct (t =? T_BYTE). { destruct (rd_int 1 bs) as [[z r1]|] eqn:E; [|discriminate]. intros H; inversion H; subst. apply rd_int_len in E. lia. }
     destruct (t =? T_I16). { destruct (rd_int 2 bs) as [[z r1]|] eqn:E; [|discriminate]. intros H; inversion H; subst. apply rd_int_len in E. lia. }
     destruct (t =? T_I32). { destruct (rd_int 4 bs) as [[z r1]|] eqn:E; [|discriminate]. intros H; inversion H; subst. apply rd_int_len in E. lia. }
@@ -543,22 +543,70 @@ Section T2JWalkTotal.
     destruct (rd_bytes bs) as [[s r1]|] eqn:E; [|discriminate]. intros H; inversion H; subst. apply rd_bytes_len in E. lia.
   Qed.
 
+  Lemma walk_key_shrinks dk bs txt r : walk_key o dk bs = Some (txt, r) -> (length r < length bs)%nat.
+  Proof. apply walk_key_t_shrinks. Qed.
+
+  (* value mapping (api.js_conv): one quoted scalar, or a list of quoted scalars; every case consumes >= 1 byte *)
+  Lemma walk_vm_scalar_shrinks t bs txt r : walk_vm_scalar fd o t bs = Some (txt, r) -> (length r < length bs)%nat.
+  Proof.
+    unfold walk_vm_scalar. destruct (t =? T_DOUBLE); [|apply walk_key_t_shrinks].
+    destruct (rd_uint 8 bs) as [[z r1]|] eqn:E; [|discriminate]. destruct (f64_is_finite z); [|discriminate].
+    intros H; inversion H; subst. apply rd_uint_len in E. lia.
+  Qed.
+
+  Lemma walk_vm_elems_le : forall n et c bs txt r, walk_vm_elems fd o n et c bs = Some (txt, r) -> (length r <= length bs)%nat.
+  Proof.
+    induction n as [|n IH]; intros et c bs txt r; cbn [walk_vm_elems].
+    - intros H; inversion H; subst. lia.
+    - destruct (walk_vm_scalar fd o et bs) as [[t1 r1]|] eqn:E1; [|discriminate]. apply walk_vm_scalar_shrinks in E1.
+      destruct (walk_vm_elems fd o n et true r1) as [[tl r2]|] eqn:E2; [|discriminate]. apply IH in E2.
+      intros H; inversion H; subst. lia.
+  Qed.
+
+  Lemma walk_vm_shrinks d bs txt r : walk_vm fd o d bs = Some (txt, r) -> (length r < length bs)%nat.
+  Proof.
+    unfold walk_vm. destruct d as [t|b|fs|dk dv|s de]; try apply walk_vm_scalar_shrinks.
+    destruct s; [apply walk_vm_scalar_shrinks|].
+    destruct bs as [|et r0]; [discriminate|].
+    destruct (negb (valid_ttype et)); [discriminate|].
+    destruct (skip_count r0) as [[sz r2]|] eqn:Ec; [|discriminate]. apply skip_count_len in Ec.
+    destruct (sz >? zlen r2); [discriminate|].
+    destruct (walk_vm_elems fd o (Z.to_nat sz) et false r2) as [[t r3]|] eqn:E; [|discriminate]. apply walk_vm_elems_le in E.
+    intros H; inversion H; subst. cbn [length]. lia.
+  Qed.
+
   (* ---- the loops, for any one-level-down walker whose remainders are no longer than its inputs ---- *)
   Section LoopsShrink.
     Variable rec : tdesc -> list Z -> option (list Z * list Z).
+    Variable bx : fmeta -> bool.
     Hypothesis rec_le : forall d b t r, rec d b = Some (t, r) -> (length r <= length b)%nat.
 
+    (* the value of a known field: by value mapping or by the one-level-down walker *)
+    Lemma field_value_le (fl : fmeta * tdesc) r2 t1 r3 :
+      (if o_value_mapping o && f_jsconv (fst fl) then walk_vm fd o (snd fl) r2 else rec (snd fl) r2) = Some (t1, r3) ->
+      (length r3 <= length r2)%nat.
+    Proof.
+      destruct (o_value_mapping o && f_jsconv (fst fl)).
+      - intros H. apply walk_vm_shrinks in H. lia.
+      - apply rec_le.
+    Qed.
+
     Lemma walk_fields_shrinks : forall f fs c bm bs txt r,
-      walk_fields o rec f fs c bm bs = Some (txt, r) -> (length r < length bs)%nat.
+      walk_fields fd o rec bx f fs c bm bs = Some (txt, r) -> (length r < length bs)%nat.
     Proof.
       induction f as [|f IH]; intros fs c bm bs txt r; cbn [walk_fields]; [discriminate|].
       destruct bs as [|t r0]; [discriminate|].
       destruct (negb (valid_ttype t)); [discriminate|].
-      destruct (t =? 0). { destruct (bm_missing fs bm); [discriminate|]. intros H; inversion H; subst. cbn [length]. lia. }
+      destruct (t =? 0).
+      { destruct (walk_unsets fd o (sort_flds fs) bm c); [|discriminate]. intros H; inversion H; subst. cbn [length]. lia. }
       destruct (rd_int 2 r0) as [[id r2]|] eqn:E2; [|discriminate]. apply rd_int_len in E2. cbn [length].
       destruct (T2J.find_field fs id) as [fl|].
-      - destruct (rec (snd fl) r2) as [[t1 r3]|] eqn:E3; [|discriminate]. apply rec_le in E3.
-        destruct (walk_fields o rec f fs true (bm_clear id bm) r3) as [[tl r4]|] eqn:E4; [|discriminate].
+      - destruct (bx (fst fl)).
+        { destruct (skip_go T_STRUCT r2) as [r3|] eqn:E3; [|discriminate]. apply skip_go_shrinks in E3.
+          intros H. apply IH in H. lia. }
+        destruct (if o_value_mapping o && f_jsconv (fst fl) then walk_vm fd o (snd fl) r2 else rec (snd fl) r2)
+          as [[t1 r3]|] eqn:E3; [|discriminate]. apply field_value_le in E3.
+        destruct (walk_fields fd o rec bx f fs true (bm_clear id bm) r3) as [[tl r4]|] eqn:E4; [|discriminate].
         apply IH in E4. intros H; inversion H; subst. lia.
       - destruct (o_disallow_unknown o); [discriminate|].
         destruct (skip_go t r2) as [r3|] eqn:E3; [|discriminate]. apply skip_go_shrinks in E3.
@@ -591,7 +639,7 @@ Section T2JWalkTotal.
     induction n as [|n IH]; intros d bs txt r; destruct d as [t|b|fs|dk dv|s de]; cbn [t2j_walk_gen];
       try discriminate; try apply walk_scalar_shrinks;
       try (intros H; apply walk_string_shrinks in H; lia).
-    - destruct (walk_fields o (t2j_walk_gen fd o n) (S (length bs)) fs false (bm_init fs) bs) as [[t r1]|] eqn:E; [|discriminate].
+    - destruct (walk_fields fd o (t2j_walk_gen fd o n) (fun _ => false) (S (length bs)) fs false (bm_init fs) bs) as [[t r1]|] eqn:E; [|discriminate].
       apply walk_fields_shrinks in E.
       + intros H; inversion H; subst. assumption.
       + intros d0 b0 t0 r0 H0. apply IH in H0. lia.
@@ -622,11 +670,12 @@ Section T2JWalkTotal.
      handed (suffixes of the current buffer) ---- *)
   Section LoopsExt.
     Variables rec rec' : tdesc -> list Z -> option (list Z * list Z).
+    Variable bx : fmeta -> bool.
     Hypothesis rec'_le : forall d b t r, rec' d b = Some (t, r) -> (length r <= length b)%nat.
 
     Lemma walk_fields_ext_fuel : forall f f' fs c bm bs, (length bs < f)%nat -> (length bs < f')%nat ->
       (forall fl b, In fl fs -> (length b <= length bs)%nat -> rec (snd fl) b = rec' (snd fl) b) ->
-      walk_fields o rec f fs c bm bs = walk_fields o rec' f' fs c bm bs.
+      walk_fields fd o rec bx f fs c bm bs = walk_fields fd o rec' bx f' fs c bm bs.
     Proof.
       induction f as [|f IH]; intros f' fs c bm bs Hf Hf' Hext; [lia|]. destruct f' as [|f']; [lia|]. cbn [walk_fields].
       destruct bs as [|t r0]; [reflexivity|].
@@ -634,8 +683,12 @@ Section T2JWalkTotal.
       destruct (t =? 0); [reflexivity|].
       destruct (rd_int 2 r0) as [[id r2]|] eqn:E2; [|reflexivity]. apply rd_int_len in E2. cbn [length] in *.
       destruct (T2J.find_field fs id) as [fl|] eqn:Ef.
-      - apply find_field_in in Ef. rewrite (Hext fl r2 Ef) by lia.
-        destruct (rec' (snd fl) r2) as [[t1 r3]|] eqn:E3; [|reflexivity]. apply rec'_le in E3.
+      - apply find_field_in in Ef. destruct (bx (fst fl)).
+        { destruct (skip_go T_STRUCT r2) as [r3|] eqn:E3; [|reflexivity]. apply skip_go_shrinks in E3.
+          apply IH; [lia|lia|]. intros fl0 b Hin Hb. apply Hext; [assumption|lia]. }
+        rewrite (Hext fl r2 Ef) by lia.
+        destruct (if o_value_mapping o && f_jsconv (fst fl) then walk_vm fd o (snd fl) r2 else rec' (snd fl) r2)
+          as [[t1 r3]|] eqn:E3; [|reflexivity]. apply (field_value_le rec' rec'_le) in E3.
         rewrite (IH f' fs true (bm_clear id bm) r3); [reflexivity|lia|lia|].
         intros fl0 b Hin Hb. apply Hext; [assumption|lia].
       - destruct (o_disallow_unknown o); [reflexivity|].
@@ -665,10 +718,10 @@ Section T2JWalkTotal.
     Qed.
   End LoopsExt.
 
-  Theorem walk_fields_fuel_stable rec :
+  Theorem walk_fields_fuel_stable rec bx :
     (forall d b t r, rec d b = Some (t, r) -> (length r <= length b)%nat) ->
     forall f f' fs c bm bs, (length bs < f)%nat -> (length bs < f')%nat ->
-    walk_fields o rec f fs c bm bs = walk_fields o rec f' fs c bm bs.
+    walk_fields fd o rec bx f fs c bm bs = walk_fields fd o rec bx f' fs c bm bs.
   Proof. intros Hle f f' fs c bm bs Hf Hf'. apply walk_fields_ext_fuel; auto. Qed.
 
   (* ---- c: the nesting budget: the walk descends only along the descriptor, which is a finite tree ---- *)
@@ -692,7 +745,7 @@ Section T2JWalkTotal.
   Proof.
     induction n as [|n IH]; intros n' d bs Hn Hn'; destruct d as [t|b|fs|dk dv|s de]; cbn [desc_height] in Hn, Hn';
       try lia; destruct n' as [|n']; try lia; cbn [t2j_walk_gen]; try reflexivity.
-    - rewrite (walk_fields_ext_fuel (t2j_walk_gen fd o n) (t2j_walk_gen fd o n') (t2j_walk_le n')
+    - rewrite (walk_fields_ext_fuel (t2j_walk_gen fd o n) (t2j_walk_gen fd o n') (fun _ => false) (t2j_walk_le n')
                  (S (length bs)) (S (length bs)) fs false (bm_init fs) bs); [reflexivity|lia|lia|].
       intros fl b Hin _. apply IH; eapply desc_height_field; try eassumption; lia.
     - destruct bs as [|kt [|vt r0]]; try reflexivity.
@@ -720,7 +773,7 @@ Section T2JWalkTotal.
       match n with
       | O => None
       | S n' =>
-        match walk_fields o (t2j_walk_f lf n') lf fs false (bm_init fs) bs with
+        match walk_fields fd o (t2j_walk_f lf n') (fun _ => false) lf fs false (bm_init fs) bs with
         | Some (t, r) => Some (123 :: t, r)
         | None => None
         end
@@ -771,7 +824,7 @@ Section T2JWalkTotal.
   Lemma t2j_walk_f_eq : forall n lf d bs, (length bs < lf)%nat -> t2j_walk_f lf n d bs = t2j_walk_gen fd o n d bs.
   Proof.
     induction n as [|n IH]; intros lf d bs Hlf; destruct d as [t|b|fs|dk dv|s de]; cbn [t2j_walk_f t2j_walk_gen]; try reflexivity.
-    - rewrite (walk_fields_ext_fuel (t2j_walk_f lf n) (t2j_walk_gen fd o n) (t2j_walk_le n)
+    - rewrite (walk_fields_ext_fuel (t2j_walk_f lf n) (t2j_walk_gen fd o n) (fun _ => false) (t2j_walk_le n)
                  lf (S (length bs)) fs false (bm_init fs) bs); [reflexivity|lia|lia|].
       intros fl b _ Hb. apply IH. lia.
     - destruct bs as [|kt [|vt r0]]; try reflexivity.
